@@ -44,10 +44,12 @@ def expand(node: Node):
         if reference.content not in ids:
             msg = f"ID not found for REFERENCE '{reference}'"
             raise ValueError(msg)
+    for reference in references:
         source_node = ids[reference.content]
         destination_node = reference.parent
+        index = destination_node.child_index(reference)
         destination_node.remove_child(reference)
         Node.delete_node_instance(reference.id)
-        for source_child in source_node.children:
+        for offset, source_child in enumerate(source_node.children):
             source_child_copy = source_child.copy()
-            destination_node.add_child(source_child_copy)
+            destination_node.add_child(source_child_copy, index + offset)
